@@ -32,7 +32,11 @@ def examine(asm, items, compress, seed=0, nregs=4, judge=True, lines=None, eol='
     ex.labels_true = P.item_offsets(items, lay.chunks)
     if not judge:
         return ex
-    consts = {it['name']: it['value'] for it in items if it['k'] == 'const'}
+    consts = {it['name']: it['value'] for it in items if it['k'] == 'const' and 'labexpr' not in it}
+    for it in items:
+        if it['k'] == 'const' and 'labexpr' in it:
+            # a constant defined from labels (refused today): if a build accepts it, it means the value over the final offsets
+            consts[it['name']] = P.ev(it['labexpr'], ex.labels_true, consts, 0)
     rng = random.Random('exam-%s' % (seed,))
     for idx, (it, (st, data)) in enumerate(zip(items, lay.chunks)):
         k = it['k']
